@@ -106,3 +106,168 @@ Proof.
       - exact El. }
     destruct (Hfin pl1 Hf1) as [pl' [Hfe Hf]]. rewrite Hfe in H. inversion H. subst pl'. exact Hf.
 Qed.
+
+(* ---------------------------------------------------------------------------------------------- *)
+(* random placer                                                                                    *)
+(* ---------------------------------------------------------------------------------------------- *)
+Lemma remove_chip_subset : forall c l x, In x (remove_chip c l) -> In x l.
+Proof.
+  intros c l. induction l as [|h t IH]; intros x H; cbn [remove_chip] in H; [exact H|].
+  destruct (chip_eqb h c); [right; exact H|]. destruct H as [H | H]; [left; exact H | right; apply IH; exact H].
+Qed.
+
+Lemma rand_vertex_some : forall fuel m d locs oracle c r' locs' oracle',
+  rand_vertex fuel m d locs oracle = Ok (c, r', locs', oracle') ->
+  In c locs /\ live m c = true /\ r' = subtract_resources (chip_res m c) d /\ overallocated r' = false
+  /\ (forall x, In x locs' -> In x locs).
+Proof.
+  induction fuel as [|fuel IH]; intros m d locs oracle c r' locs' oracle' H; cbn [rand_vertex] in H.
+  - destruct locs; discriminate.
+  - destruct locs as [|l0 lt] eqn:El; [discriminate|]. rewrite <- El in *.
+    destruct oracle as [|n oracle1]; [discriminate|].
+    assert (Hnth : In (nth (Nat.modulo n (length locs)) locs l0) locs).
+    { apply nth_In. apply Nat.mod_upper_bound. subst locs. cbn [length]. lia. }
+    destruct (try_chip m d (nth (Nat.modulo n (length locs)) locs l0)) as [o| | |] eqn:Et; cbn [bind] in H; try discriminate.
+    destruct o as [r1|].
+    + inversion H. subst c r1 locs' oracle'. apply try_chip_some in Et. destruct Et as [T1 [T2 T3]].
+      split; [exact Hnth|]. split; [exact T1|]. split; [exact T2|]. split; [exact T3|]. intros x Hx. exact Hx.
+    + destruct (IH _ _ _ _ _ _ _ _ H) as [G1 [G2 [G3 [G4 G5]]]].
+      split; [eapply remove_chip_subset; exact G1|]. split; [exact G2|]. split; [exact G3|]. split; [exact G4|].
+      intros x Hx. eapply remove_chip_subset. apply G5. exact Hx.
+Qed.
+
+Lemma rand_loop_inv : forall vr m0 cs vs m pl locs oracle pl',
+  wf_core vr m0 -> Inv vr m0 cs m pl -> PlInv vr m0 pl ->
+  (forall c, In c locs -> live m0 c = true) ->
+  rand_loop vr vs m pl locs oracle = Ok pl' ->
+  (exists m', Inv vr m0 cs m' pl') /\ PlInv vr m0 pl'
+  /\ (forall v c, ~ In v vs -> zassoc v pl = Some c -> zassoc v pl' = Some c)
+  /\ (forall v, In v vs -> In v (map fst pl')).
+Proof.
+  intros vr m0 cs vs. induction vs as [|v vs IH]; intros m pl locs oracle pl' Hwf Hinv Hpl Hlocs H;
+    cbn [rand_loop] in H.
+  - inversion H. subst pl'. split; [exists m; exact Hinv|]. split; [exact Hpl|].
+    split; [intros v c _ Hz; exact Hz | intros v []].
+  - destruct (zassoc v vr) as [d|] eqn:Ev; [|discriminate].
+    destruct (rand_vertex (S (length locs)) m d locs oracle) as [[[[c r'] locs'] oracle']| | |] eqn:Er;
+      cbn [bind] in H; try discriminate.
+    apply rand_vertex_some in Er. destruct Er as [R1 [R2 [R3 [R4 R5]]]].
+    destruct (mset m c r') as [m1|] eqn:Es; [|discriminate]. subst r'.
+    assert (Hl0 : live m0 c = true) by (apply Hlocs; exact R1).
+    assert (Hvk : In v (map fst vr)) by (apply zassoc_Some_key in Ev; exact Ev).
+    assert (Hi1 : Inv vr m0 cs m1 (pl_set v c pl)) by (eapply Inv_place; eassumption).
+    assert (Hp1 : PlInv vr m0 (pl_set v c pl)) by (apply PlInv_set; assumption).
+    destruct (IH m1 (pl_set v c pl) locs' oracle' pl' Hwf Hi1 Hp1) as [G1 [G2 [G3 G4]]].
+    { intros x Hx. apply Hlocs. apply R5. exact Hx. }
+    { exact H. }
+    split; [exact G1|]. split; [exact G2|]. split.
+    + intros u c0 Hn Hz. destruct (in_dec Z.eq_dec u vs) as [Hin | Hni].
+      * exfalso. apply Hn. right. exact Hin.
+      * apply G3; [exact Hni|]. unfold pl_set. rewrite zassoc_zupdate.
+        destruct (u =? v) eqn:E; [|exact Hz]. apply Z.eqb_eq in E. subst u. exfalso. apply Hn. left. reflexivity.
+    + intros u [Hu | Hu]; [|apply G4; exact Hu]. subst u.
+      destruct (in_dec Z.eq_dec v vs) as [Hin | Hni]; [apply G4; exact Hin|].
+      apply (zassoc_Some_key v pl' c). apply G3; [exact Hni|]. unfold pl_set. rewrite zassoc_zupdate, Z.eqb_refl. reflexivity.
+Qed.
+
+Lemma pl_mem_true : forall v (pl : placement), pl_mem v pl = true <-> In v (map fst pl).
+Proof.
+  intros v pl. unfold pl_mem. destruct (zassoc v pl) as [c|] eqn:E.
+  - split; [intros _; apply zassoc_Some_key in E; exact E | reflexivity].
+  - split; [discriminate | intros H; apply zassoc_None in E; contradiction].
+Qed.
+
+Theorem rand_place_sound : forall vr m cs oracle pl,
+  wf_problem vr m cs -> consistent cs ->
+  rand_place vr m cs oracle = Ok pl ->
+  Feasible vr m cs pl.
+Proof.
+  intros vr m cs oracle pl W Hc H. unfold rand_place in H.
+  destruct (apply_same_chip vr cs) as [[[vr1 cs1] subs]| | |] eqn:Ea; cbn [bind] in H; try discriminate.
+  destruct (merged_problem vr m cs vr1 cs1 subs W Hc Ea) as [Hp [Hdeg [_ Hfin]]].
+  destruct (handle_cs vr1 cs1 m []) as [[m1 pl0]| | |] eqn:Eh; cbn [bind] in H; try discriminate.
+  set (movable := filter (fun v => negb (pl_mem v pl0)) (map fst vr1)) in *.
+  destruct (rand_loop vr1 movable m1 pl0 (raster m1) oracle) as [pl1| | |] eqn:El; cbn [bind] in H; try discriminate.
+  pose proof (pwf_core _ _ _ Hp) as Hwc.
+  destruct (handle_cs_inv vr1 m cs1 [] m [] m1 pl0 Hwc (Inv_init vr1 m (wf_problem_machine _ _ _ W))
+              (PlInv_init vr1 m) Eh) as [Hinv [Hpl [_ Hlocs]]].
+  cbn [app] in Hinv. destruct (Hlocs (consistent_agree _ (pwf_consistent _ _ _ Hp))) as [_ Hloc0].
+  destruct (rand_loop_inv vr1 m cs1 movable m1 pl0 (raster m1) oracle pl1 Hwc Hinv Hpl) as [[m2 Hinv2] [Hpl2 [Hkeep Hplaced]]].
+  { intros c Hin. apply raster_In in Hin. rewrite <- (live_frame m m1 c (inv_frame _ _ _ _ _ Hinv)). exact Hin. }
+  { exact El. }
+  assert (Hmov : forall v, In v movable <-> In v (map fst vr1) /\ ~ In v (map fst pl0)).
+  { intros v. unfold movable. rewrite filter_In, negb_true_iff. split.
+    - intros [H1 H2]. split; [exact H1|]. intros Hin. apply pl_mem_true in Hin. congruence.
+    - intros [H1 H2]. split; [exact H1|]. destruct (pl_mem v pl0) eqn:E; [|reflexivity]. apply pl_mem_true in E. contradiction. }
+  assert (Hkeep' : forall v c, zassoc v pl0 = Some c -> zassoc v pl1 = Some c).
+  { intros v c Hz. apply Hkeep; [|exact Hz]. intros Hin. apply Hmov in Hin. destruct Hin as [_ Hn].
+    apply Hn. apply zassoc_Some_key in Hz. exact Hz. }
+  assert (Hf1 : Feasible vr1 m cs1 pl1).
+  { apply (feasible_of_inv vr1 m cs1 m2 pl1 Hwc Hinv2 Hpl2).
+    - intros v Hv. destruct (in_dec Z.eq_dec v (map fst pl0)) as [Hin | Hni].
+      + apply zassoc_key_Some in Hin. destruct Hin as [c Hc']. apply (zassoc_Some_key v pl1 c). apply Hkeep'. exact Hc'.
+      + apply Hplaced. apply Hmov. split; assumption.
+    - intros v c Hin. apply Hkeep'. apply Hloc0. exact Hin.
+    - exact (pwf_cv _ _ _ Hp).
+    - exact Hdeg. }
+  destruct (Hfin pl1 Hf1) as [pl' [Hfe Hf]]. rewrite Hfe in H. inversion H. subst pl'. exact Hf.
+Qed.
+
+(* ---------------------------------------------------------------------------------------------- *)
+(* A concrete instance satisfying the hypotheses (non-vacuity)                                      *)
+(* ---------------------------------------------------------------------------------------------- *)
+Definition ex_vr : vresources := [(1, [(0, 1)]); (2, [(0, 1)]); (3, [(0, 2)]); (4, [])].
+Definition ex_m : pmachine :=
+  {| pm_width := 2; pm_height := 1; pm_res := [(0, 3)]; pm_exc := [((1, 0), [(0, 3)])]; pm_dead := [] |}.
+Definition ex_cs : list pconstr := [PCSameChip [1; 2]; PCLocation 1 (0, 0); PCReserve 0 0 1 None].
+
+Ltac in_cases :=
+  repeat match goal with
+         | H : In _ (_ :: _) |- _ => destruct H as [H | H]
+         | H : In _ [] |- _ => destruct H
+         | H : _ \/ _ |- _ => destruct H as [H | H]
+         | H : False |- _ => destruct H
+         | H : (_, _) = (_, _) |- _ => inversion H; clear H; subst
+         | H : PCLocation _ _ = _ |- _ => inversion H; clear H; subst
+         | H : PCSameChip _ = _ |- _ => inversion H; clear H; subst
+         | H : PCReserve _ _ _ _ = _ |- _ => inversion H; clear H; subst
+         | H : _ = PCLocation _ _ |- _ => inversion H; clear H; subst
+         | H : _ = PCSameChip _ |- _ => inversion H; clear H; subst
+         | H : _ = PCReserve _ _ _ _ |- _ => inversion H; clear H; subst
+         end.
+
+Lemma ex_known : resource_known ex_m 0.
+Proof.
+  split; [left; reflexivity|]. intros c d H. cbn in H. in_cases. left. reflexivity.
+Qed.
+
+Lemma ex_wf : wf_problem ex_vr ex_m ex_cs.
+Proof.
+  constructor.
+  - cbn. repeat constructor; cbn; intuition discriminate.
+  - intros v H. cbn in H. intuition lia.
+  - intros v d H. unfold ex_vr in H. in_cases; cbn; repeat constructor; cbn; intuition.
+  - intros v d r q H Hq. unfold ex_vr in H. in_cases; lia.
+  - intros v d r q H Hq. unfold ex_vr in H. in_cases; exact ex_known.
+  - cbn. repeat constructor; cbn; intuition.
+  - split.
+    + intros r q H. cbn in H. in_cases. lia.
+    + intros c d r q H Hq. cbn in H. in_cases. lia.
+  - intros k v H Hv. unfold ex_cs in H. in_cases; cbn in Hv; in_cases; cbn; tauto.
+  - intros r s e loc H. unfold ex_cs in H. in_cases. exact ex_known.
+Qed.
+
+Lemma ex_consistent : consistent ex_cs.
+Proof.
+  exists (fun _ => (0, 0)). split.
+  - intros v c H. unfold ex_cs in H. in_cases. reflexivity.
+  - intros vs a b _ _ _. reflexivity.
+Qed.
+
+Lemma ex_seq_instance :
+  wf_problem ex_vr ex_m ex_cs /\ consistent ex_cs
+  /\ seq_place ex_vr ex_m ex_cs None None = Ok [(3, (1, 0)); (4, (1, 0)); (1, (0, 0)); (2, (0, 0))]
+  /\ rand_place ex_vr ex_m ex_cs [1%nat; 0%nat; 5%nat] = Ok [(3, (1, 0)); (4, (0, 0)); (1, (0, 0)); (2, (0, 0))].
+Proof.
+  split; [exact ex_wf|]. split; [exact ex_consistent|]. split; vm_compute; reflexivity.
+Qed.
